@@ -494,6 +494,9 @@ func (g *histGen) genTx() *txSpec {
 // genBlock draws a block of n transactions.
 func (g *histGen) genBlock(maxTx int) *blockSpec {
 	n := rapid.IntRange(0, maxTx).Draw(g.t, "ntx")
+	if rapid.IntRange(0, 9).Draw(g.t, "emptyBlock") == 0 {
+		n = 0 // timed blocks without transactions, also right after a block with deliveries
+	}
 	b := &blockSpec{}
 	for i := 0; i < n; i++ {
 		b.txs = append(b.txs, g.genTx())
